@@ -204,7 +204,7 @@ class IntegerEdit(NumEdit):
             if isinstance(default, str) and len(default):
                 # check if it is a valid initial value
                 validation_re = f"^[{allowed_chars}]+$"
-                if not re.match(validation_re, str(default), re.IGNORECASE):
+                if not re.match(validation_re, str(default), re.IGNORECASE | re.ASCII):
                     raise ValueError(f"invalid value: {default} for base {base}")
 
             elif isinstance(default, Decimal) and default.as_tuple()[2] != 0:
@@ -213,7 +213,7 @@ class IntegerEdit(NumEdit):
 
             # convert possible int, long or Decimal to str
             val = str(default)
-            if not isinstance(default, str) and not re.match(f"^-?[{allowed_chars}]+$", val, re.IGNORECASE):
+            if not isinstance(default, str) and not re.match(f"^-?[{allowed_chars}]+$", val, re.IGNORECASE | re.ASCII):
                 # the decimal digits of the number are not all digits of this base
                 raise ValueError(f"invalid value: {default} for base {base}")
 
